@@ -119,6 +119,85 @@ func sharedAccessFacts(repo string, unsafeTypes map[string]bool) ([]string, erro
 	return out, nil
 }
 
+// slotLoadFacts: the single-slot caches in front of the pools (atomic.Pointer[T] fields: localState, localRun, localScratch, …) hand a
+// per-search object to exactly one search only if it is TAKEN with Swap(nil) (or CompareAndSwap); Load() returns the pointer while
+// leaving it in the slot for the next goroutine.  Fact = a call <recv>.<slot>.Load() whose result is used for anything but a
+// comparison with nil.
+func slotLoadFacts(repo string) ([]string, error) {
+	var facts []string
+	for _, d := range []string{"meta", "dfa/lazy", "nfa", "dfa/onepass", "prefilter", "."} {
+		fs := token.NewFileSet()
+		pkgs, err := parser.ParseDir(fs, filepath.Join(repo, d), func(fi os.FileInfo) bool {
+			return !strings.HasSuffix(fi.Name(), "_test.go") && !strings.HasSuffix(fi.Name(), "_verif.go")
+		}, 0)
+		if err != nil {
+			return nil, err
+		}
+		for _, pkg := range pkgs {
+			slots := map[string]bool{}
+			for _, f := range pkg.Files {
+				ast.Inspect(f, func(n ast.Node) bool {
+					if fld, ok := n.(*ast.Field); ok {
+						var buf bytes.Buffer
+						printer.Fprint(&buf, fs, fld.Type)
+						if strings.HasPrefix(buf.String(), "atomic.Pointer[") {
+							for _, nm := range fld.Names {
+								slots[nm.Name] = true
+							}
+						}
+					}
+					return true
+				})
+			}
+			for _, f := range pkg.Files {
+				for _, decl := range f.Decls {
+					fd, ok := decl.(*ast.FuncDecl)
+					if !ok || fd.Body == nil {
+						continue
+					}
+					var stack []ast.Node
+					ast.Inspect(fd.Body, func(n ast.Node) bool {
+						if n == nil {
+							stack = stack[:len(stack)-1]
+							return true
+						}
+						stack = append(stack, n)
+						call, ok := n.(*ast.CallExpr)
+						if !ok || len(call.Args) != 0 {
+							return true
+						}
+						sel, ok := call.Fun.(*ast.SelectorExpr)
+						if !ok || sel.Sel.Name != "Load" {
+							return true
+						}
+						inner, ok := sel.X.(*ast.SelectorExpr)
+						if !ok || !slots[inner.Sel.Name] {
+							return true
+						}
+						// allowed: the result is only compared with nil
+						if len(stack) >= 2 {
+							if be, ok := stack[len(stack)-2].(*ast.BinaryExpr); ok && (be.Op == token.NEQ || be.Op == token.EQL) {
+								other := be.Y
+								if be.Y == ast.Expr(call) {
+									other = be.X
+								}
+								if id, ok := other.(*ast.Ident); ok && id.Name == "nil" {
+									return true
+								}
+							}
+						}
+						facts = append(facts, fmt.Sprintf("%s.%s: %s.Load() at %s is used as a value (a per-search object must be taken out of its slot with Swap(nil))",
+							pkg.Name, fd.Name.Name, inner.Sel.Name, fs.Position(call.Pos()).String()[len(repo)+1:]))
+						return true
+					})
+				}
+			}
+		}
+	}
+	sort.Strings(facts)
+	return facts, nil
+}
+
 // stateOwnershipFacts: the getSearchState/putSearchState protocol modelled by Cx.State.Pool assumes that a state is put
 // back exactly by the call that took it.  Fact = a putSearchState(x) call (also deferred) for which no statement list
 // enclosing the call contains, before it, the assignment x := recv.getSearchState() — i.e. the state was borrowed from a
@@ -224,7 +303,10 @@ func stateOwnershipFacts(repo string) ([]string, error) {
 
 var c06Templates = []string{`foo.*?bar`, `\d+`, `[a-z]+[0-9]+`, `(foo|bar|baz)qux`, `^(\d+|UUID|hex32)`, `.*\.txt$`, `\w+@\w+\.com`, `(?i)hello`, `error|warning|fatal`,
 	`\d{1,3}\.\d{1,3}`, `(?m)^/.*\.php`, `.*error.*`, `^/api/.*\.json$`, `a(b|c)*d`, `[^,]+,`, `(\w+)\s(\w+)`, `x*`, `hello`, `\bfoo\b`, `.*\.(txt|log|md)`, `^/.*\.php`,
-	`(a|ab)(c|bcd)(d*)`, `[a-z]+connection[a-z]+`, `(?s)a.+b`, `\b\w+\b`}
+	`(a|ab)(c|bcd)(d*)`, `[a-z]+connection[a-z]+`, `(?s)a.+b`, `\b\w+\b`,
+	// one shape per searcher that owns caches of its own (reverse inner through searchSpan, suffix, suffix set, multiline, digit,
+	// Aho-Corasick with a nested literal: Pike VM re-scan)
+	`[^\s=]+ connection \d+`, `[a-z]+\.txt`, `.*(?:\.txt|\.log)`, `(?m)^GET .*\.html$`, `[0-9][a-z0-9]*X`, "rdqs1b|dqs|" + manyLiterals(70), `^[a-z]+\d$`}
 
 // c06Worker: N goroutines replay the same calls on shared Regex values; results are compared with the sequential ones.
 // Prints "MISMATCH …" lines and "DONE n"; the race detector writes its reports to stderr.
@@ -346,6 +428,20 @@ func checkC06(r *Report, known []Finding) {
 		}
 		r.Violate("per-search state returned to the pool by a call that does not own it: "+f,
 			map[string]any{"fact": f, "explanation": "the caller keeps using the state after it was reset and handed to the pool; the next goroutine's getSearchState receives the same SearchState (Cx.State.Pool: the 'held' list would contain it twice)"}, false)
+	}
+	// ---- (a+) slot facts: a per-search object is taken out of a single-slot cache, never read in place
+	if sl, err := slotLoadFacts("/repo"); err != nil {
+		r.Violate("slot-fact extraction failed: "+err.Error(), map[string]any{"check": "go/ast fact extractor"}, true)
+		return
+	} else {
+		ts := r.Tie("source facts: objects in atomic single-slot caches are taken with Swap/CompareAndSwap, Load() only tests for nil")
+		ts.Cases += 12
+		r.Extra["slot_load_facts"] = sl
+		for _, f := range sl {
+			ts.Disagreements++
+			r.Violate("per-search object shared through a cache slot: "+f,
+				map[string]any{"fact": f, "explanation": "Load() leaves the object in the slot: the next goroutine (or this one, again) gets the same object while it is in use (Cx.State.Pool: two holders)"}, false)
+		}
 	}
 	// ---- (a'') type-level facts: a shared object is not written during a search
 	rw, err := receiverWriteFacts("/repo")
